@@ -74,7 +74,7 @@ func (rig *srcRig) load(st *srcState) {
 		rig.nsCache.Delete(o)
 	}
 	if st.CachedNS != nil {
-		rig.nsCache.Add(&corev1.Namespace{ObjectMeta: metav1.ObjectMeta{Name: st.Name, Labels: *st.CachedNS}})
+		rig.nsCache.Add(&corev1.Namespace{ObjectMeta: metav1.ObjectMeta{Name: st.Name, Labels: *st.CachedNS, ResourceVersion: adm.LabelsRV(*st.CachedNS), UID: "ns-uid"}})
 	}
 	olds, _ := rig.podCache.ByIndex(cache.NamespaceIndex, st.Name)
 	for _, o := range olds {
